@@ -105,6 +105,8 @@ def kernels_writing(F, attrs):
     """(kernel, {param: attr}) for kernels that store into a table fed from `attrs`."""
     out = []
     for k in F.model.kernels():
+        if F.is_inlined_helper(k):
+            continue        # decided at its (inlined) call sites
         tp = table_params(F, k, attrs)
         if not tp:
             continue
@@ -806,6 +808,8 @@ def rule_cons(ctx, kernels=None):
                "" if len(sites) == 1 else "sites: %s" % [src(k, g[0].node, 50) for g in sites])
         # (iv) callees do not write the table
         for c in F.calls_from(k):
+            if F.is_inlined_helper(c.callee):
+                continue       # walked inline: its stores are among the store sites above
             wr = F.effects.written_params(c.callee)
             bad = [p for p, a in c.argmap.items() if p in wr and isinstance(a, ast.Name) and a.id == table]
             ctx.ob("cons", k, c.node, "call %s(...)" % c.callee.name, "callee does not write the counter table", not bad,
@@ -855,7 +859,9 @@ def rule_cons(ctx, kernels=None):
                     res_c.append((True, "cell raised to new_count", fact_strs(le)))
                     continue
                 rd = [x for x in evs if x.kind == "read" and x.arr.name == table and len(x.idx) == 2 and x.idx[0].lin == Lin.term(le.loop.varterm)]
-                okc = newv is not None and any(w.P.prove_le0(newv - Lin.term(x.term), le.facts) for x in rd)
+                # the value this execution of the loop stores (paths differ in how new_count was formed)
+                newv_here = next((e.value.lin for e in g if e.loops and e.loops[-1] is le.loop and isinstance(e.value, Num)), newv)
+                okc = newv_here is not None and any(w.P.prove_le0(newv_here - Lin.term(x.term), le.facts) for x in rd)
                 res_c.append((bool(okc), "row skipped only when its cell is already >= new_count" if okc else
                               "a row of the key can be left below new_count: the key's estimate after the add is then smaller than old + v", fact_strs(le)))
             if res_c:
@@ -937,7 +943,7 @@ def rule_nadd_once(ctx, kernels):
             # does this exit follow the table-store loop?  (a loop whose body writes a table)
             after_loop = any(x.kind == "loopend" and (x.loop.written & tabs) for x in w.events
                              if x.kind == "loopend" and x.line < r.line) if r.implicit else None
-            reaches = _exit_follows_store_loop(k, r, tabs)
+            reaches = _exit_follows_store_loop(w, r, tabs)
             if reaches:
                 okk = len(cnt) == 1 and not cnt[0].loops
                 res.append((okk, "one bookkeeping update on the path" if okk else
@@ -971,17 +977,14 @@ def rule_nadd_once(ctx, kernels):
             agg(ctx, "nadd-once", k, g[0].node, src(k, g[0].node), "n_added grows by the multiplicity applied", res)
 
 
-def _exit_follows_store_loop(k, r, tabs):
-    """True if the exit `r` is lexically after a loop that stores into a table (i.e. the add was not cut short)."""
-    line = r.line if not r.implicit else 10 ** 9
-    for n in walk_no_nested(k.node):
-        if isinstance(n, (ast.For, ast.While)):
-            for s in walk_no_nested(n):
-                if isinstance(s, (ast.Assign, ast.AugAssign)):
-                    tg = s.targets[0] if isinstance(s, ast.Assign) else s.target
-                    if isinstance(tg, ast.Subscript) and isinstance(tg.value, ast.Name) and tg.value.id in tabs:
-                        if n.end_lineno < line:
-                            return True
+def _exit_follows_store_loop(w, r, tabs):
+    """True if the exit `r` lies on a path that went through the table update (a loop whose body stores into a table, or a direct
+    table store outside any loop), i.e. the add was not cut short."""
+    for x in on_path(w.events, r):
+        if x.kind == "loopstart" and (x.loop.written & tabs):
+            return True
+        if x.kind in ("store", "slicestore") and x.arr.name in tabs and not x.loops:
+            return True
     return False
 
 
@@ -1238,8 +1241,8 @@ def rule_no_skip(ctx, kernels, rule="no-skip"):
         w = walk_kernel(F, k)
         tabs = set(table_params(F, k, {"cms", "lhh_count"}))
         rets = [e for e in w.events if e.kind == "ret"]
-        early = [r for r in rets if not _exit_follows_store_loop(k, r, tabs)]
-        late = [r for r in rets if _exit_follows_store_loop(k, r, tabs)]
+        early = [r for r in rets if not _exit_follows_store_loop(w, r, tabs)]
+        late = [r for r in rets if _exit_follows_store_loop(w, r, tabs)]
         ctx.ob(rule, k, k.node, "%s: %d normal exit(s) after the update loop" % (k.name, len(late)),
                "the kernel has a path that performs the table update", bool(late))
         value = Lin.term(("param", "value")) if "value" in k.params else None
